@@ -30,7 +30,20 @@ def exc_matches(exc, handler):
     return False
 
 
+_HQ = {}
+
+
 def has_quant(t):
+    k = t.get_id()
+    hit = _HQ.get(k)
+    if hit is not None and hit[0].eq(t):
+        return hit[1]
+    r = _has_quant(t)
+    _HQ[k] = (t, r)      # keep t alive so that the id is not recycled
+    return r
+
+
+def _has_quant(t):
     seen = set()
     stack = [t]
     while stack:
@@ -123,10 +136,10 @@ class Engine(Evaluator):
         if t == 'str':
             return VElem(z3.Const(fresh_name(base), Elem))
         k = t[0]
-        if k == 'list':
+        if k in ('list', 'arr'):
             lv, n = st.heap.fresh_list(t[1], base)
             st.assume(n >= 0)
-            return lv
+            return VList(lv.ref, nd=(k == 'arr'))
         if k == 'tuple':
             return VTuple([self.fresh_value(x, '%s.%d' % (base, i), st) for i, x in enumerate(t[1])])
         if k == 'slice':
@@ -158,11 +171,9 @@ class Engine(Evaluator):
         if name in self.spec_funcs:
             return VFunc('spec', name)
         cs = [c for c in BY_NAME.get(name, []) if '.' not in c.qual]
-        same = [c for c in cs if c.file == self.cur.file]
+        same = [c for c in cs if c.file == self.cur.file] or [c for c in cs if c.file == '<lib>'] or cs
         if same:
-            return VFunc('contract', name, extra=same[0])
-        if cs:
-            return VFunc('contract', name, extra=cs[0])
+            return VFunc('contract', name, extra=same)
         if name in self.GLOBAL_CONSTS:
             return self.GLOBAL_CONSTS[name]
         if name in EXC_PARENTS:
@@ -228,7 +239,7 @@ class Engine(Evaluator):
             if f.kind == 'builtin':
                 return self.call_builtin(f.name, args, kw, st, node)
             if f.kind == 'contract':
-                return self.apply_contract(f.extra, args, kw, st, node)
+                return self.apply_contract(self.pick_variant(f.extra, args, kw, st), args, kw, st, node)
             if f.kind == 'method':
                 return self.apply_contract(f.extra, [f.self_val] + args, kw, st, node)
             if f.kind == 'spec':
@@ -267,6 +278,49 @@ class Engine(Evaluator):
             self.assumed_used.add(c.key)
             return self.apply_contract(c, args, kw, st, node)
         return None
+
+    def pick_variant(self, cands, args, kw, st):
+        if not isinstance(cands, list):
+            return cands
+        if len(cands) == 1:
+            return cands[0]
+        for c in cands:
+            try:
+                env = self.bind_params(c, args, kw, st)
+            except Unsupported:
+                continue
+            if all(self.value_matches(env[n], parse_type(t), st) for n, t in c.params.items() if n in env):
+                return c
+        raise Unsupported('no contract variant of %s matches the argument types' % cands[0].qual)
+
+    def value_matches(self, v, t, st):
+        if t == 'int':
+            return isinstance(v, VInt)
+        if t == 'bool':
+            return isinstance(v, VBool)
+        if t == 'real':
+            return isinstance(v, (VReal, VInt))
+        if t in ('elem', 'str'):
+            return isinstance(v, (VElem, VStr, VNone)) or t == 'elem'
+        if t == 'none':
+            return isinstance(v, VNone)
+        k = t[0]
+        if k == 'opt':
+            return isinstance(v, VNone) or self.value_matches(v, t[1], st)
+        if k in ('list', 'arr'):
+            if not isinstance(v, VList):
+                return False
+            et = st.heap.lists[v.ref].etype
+            return et is None or et in expand_opts(t[1])
+        if k == 'tuple':
+            return isinstance(v, VTuple) and len(v.items) == len(t[1]) and all(self.value_matches(x, y, st) for x, y in zip(v.items, t[1]))
+        if k == 'slice':
+            return isinstance(v, VSlice) and all(self.value_matches(x, y, st) for x, y in zip((v.start, v.stop, v.step), t[1:]))
+        if k == 'obj':
+            return isinstance(v, VObj) and (t[1] is None or self.is_subclass(v.cls, t[1]))
+        if k == 'rec':
+            return isinstance(v, VRec)
+        return False
 
     def shallow_copy(self, v, st):
         if isinstance(v, VObj):
@@ -514,13 +568,24 @@ class Engine(Evaluator):
         for k, v in kw.items():
             sub.env[k] = v
         sub.heap = st.heap      # share: spec functions only read
+        sub.specfork = 1
+        sub.nofork = 0
+        nd = len(sub.decisions)
+        mark = len(self.obs)
         outs = self.exec_block(fn.body, [sub])
+        del self.obs[mark:]     # specification functions generate no obligations
         rets = [o for o in outs if o.status == 'return']
-        if len(rets) != 1:
-            raise Unsupported('spec function %s must have exactly one straight-line return' % name)
-        for t in rets[0].pc[len(st.pc):]:
-            st.assume(t)
-        return rets[0].retval
+        if not rets or len(rets) != len(outs):
+            raise Unsupported('spec function %s must return on every path' % name)
+        if len(rets) == 1:
+            for t in rets[0].pc[len(st.pc):]:
+                st.assume(t)
+            return rets[0].retval
+        val = rets[-1].retval
+        for r in reversed(rets[:-1]):
+            c = z3.And(r.decisions[nd:]) if len(r.decisions) - nd != 1 else r.decisions[nd]
+            val = self.merge_if(c, r.retval, val, st)
+        return val
 
     # ---- opaque callbacks (monitors) ----------------------------------------------------------------
     def call_opaque(self, f, args, kw, st, node):
@@ -701,8 +766,10 @@ class Engine(Evaluator):
                 del self.obs[mark:]
                 a = s.copy()
                 a.assume(f.cond)
+                a.decisions.append(f.cond)
                 b = s.copy()
                 b.assume(z3.Not(f.cond))
+                b.decisions.append(z3.Not(f.cond))
                 for x in (b, a):
                     if x.feasible():
                         pending.append(x)
